@@ -886,19 +886,22 @@ class Network:
             }
         )
 
-        # Send the connect to peer message
-        await self.server_connection.send_message(
-            ConnectToPeer.Request(ticket, username, typ))
-
         futures = (expected_connection_future, cannot_connect_future)
-        done, pending = await asyncio.wait(
-            futures,
-            timeout=PEER_INDIRECT_CONNECT_TIMEOUT,
-            return_when=asyncio.FIRST_COMPLETED
-        )
+        try:
+            # Send the connect to peer message
+            await self.server_connection.send_message(
+                ConnectToPeer.Request(ticket, username, typ))
 
-        # Whatever happens here, we can cancel all pending futures
-        [fut.cancel() for fut in pending]
+            done, pending = await asyncio.wait(
+                futures,
+                timeout=PEER_INDIRECT_CONNECT_TIMEOUT,
+                return_when=asyncio.FIRST_COMPLETED
+            )
+
+        finally:
+            # Whatever happens here (also when sending failed or when this
+            # attempt got cancelled), we can cancel all pending futures
+            [fut.cancel() for fut in futures]
 
         # `done` will be empty in case of timeout
         if not done:
